@@ -32,6 +32,9 @@ def tasks(tier):
         both = a in mro_c.TROUBLE and b in mro_c.TROUBLE
         t += [_tm.T(f"typeorder/mirror[{a},{b}]/{'relative' if both else 'outside'}", mro_c.t_mirror(a, b, "relative" if both else "outside", unfold=1), mode="U")]
     t += [_tm.T("FuncDependentType.__lt__/wildcards", mro_c.t_funcdep_lt)]
+    from contracts import recode_c
+
+    t += [dict(name="recode.tail", build=recode_c.t_recode_tail, mode="U")]  # methods made by one def keep distinct identities whatever the registration order
     t += _tm.e2e_tasks(["complete", "sound_chain"], tier, perm=True)
     t += [
         _tm.T("frames.determinism", __import__("pyvc.frames", fromlist=["frame_task"]).frame_task("frames.determinism", [
